@@ -64,18 +64,26 @@ static const char *LENS[] = {"", "hh", "h", "l", "ll", "j", "z", "t", "L"};
 
 void fmt_render(const fcase_t *c, char *out, size_t n) {
     size_t k = 0;
-    int i, j, ai = 0;
+    int i, j, ai = 0, glue = 0;
     const int positional = (c->argmode & 2) != 0; /* every directive written as %<k>$...: the k-th argument */
 #define EMIT(...) do { if (k < n) k += (size_t)snprintf(out + k, n - k, __VA_ARGS__); } while (0)
     out[0] = 0;
     for (i = 0; i < c->nd; i++) {
         const fdir_t *d = &c->d[i];
+        if (glue) { glue = 0; goto conv; } /* directly after a wide-only unknown conversion: no literal, no escapes in between */
         if (d->lit == LIT_LONG) { int q; for (q = 0; q < 4100 && k + 1 < n; q++) out[k++] = ' '; out[k < n ? k : n - 1] = 0; } /* pushes what follows beyond offset 4096 */
         else EMIT("%s", LITS[d->lit % NLITS]);
         for (j = 0; j < d->esc; j++) EMIT("%%%%");
+    conv:
         if (d->conv == '%') { EMIT("%%%%"); continue; }
         if (d->conv == 'N') { EMIT("%%%%n"); continue; }
-        if (d->conv == '[') { EMIT("%%[x"); continue; } /* printf: an unknown conversion, printed literally by libc */
+        if (d->conv == '[') { /* printf: an unknown conversion, printed literally by libc */
+            /* wide entry points, half of the time: a character above 0xFF whose LOW BYTE is a flag / length modifier / digit
+             * (bytes 1..4 become U+0168 'h', U+016C 'l', U+0231 '1', U+022D '-' in widen()), glued to the next directive */
+            if (g_fent[c->ent].wide && g_fent[c->ent].kind != FK_SCANF && (d->vsel & 1)) { EMIT("%%%c", 1 + ((d->vsel >> 1) & 3)); glue = (d->vsel & 8) != 0; }
+            else EMIT("%%[x");
+            continue;
+        }
         EMIT("%%");
         if (positional) EMIT("%d$", ++ai);
         if (d->flags & 32) EMIT("I");   /* glibc extensions a pre-scan has to know about */
@@ -132,6 +140,14 @@ static double dval(unsigned sel) {
     return DVALS[k];
 }
 
+/* "%Lf" arguments: a quarter of them are values no double holds (more than 53 significant bits, or outside the double range) */
+static long double ldval(unsigned sel) {
+    static const long double LV[] = {0.1L, 1.0L / 3.0L, 3.14159265358979323846264338327950288L, 1e4000L, -1e-4000L, 1.0000000000000000001L,
+                                     123456789.123456789123L, -2.000000000000000000434L, 1e-320L, 98765432109876543210.5L};
+    if (sel % 64 >= 54) return LV[sel % 64 - 54];
+    return (long double)dval(sel);
+}
+
 /* ---- handlers ---- */
 static fres_t *g_fx;
 static void fh(const char *msg, void *ptr, errno_t err) {
@@ -162,7 +178,8 @@ static FILE *sink_file(int wide) {
 
 static size_t widen(const char *s, wchar_t *w, size_t n) {
     size_t i;
-    for (i = 0; s[i] && i + 1 < n; i++) w[i] = (wchar_t)(unsigned char)s[i];
+    static const wchar_t hi[5] = {0, 0x0168, 0x016C, 0x0231, 0x022D}; /* see fmt_render, conversion '[' */
+    for (i = 0; s[i] && i + 1 < n; i++) w[i] = (unsigned char)s[i] <= 4 ? hi[(unsigned char)s[i]] : (wchar_t)(unsigned char)s[i];
     w[i] = 0;
     return i;
 }
@@ -263,7 +280,7 @@ void fmt_run(const fcase_t *c, fres_t *x, int want_ref, int guard) {
         case 'p': PUSH(ffi_type_pointer, p, (void *)(uintptr_t)(0x1000 * (d->vsel % 7))); break;
         case 'n': blk_is_n[nblk] = 1; PUSH(ffi_type_pointer, p, g_blocks[nblk]); nblk++; break;
         default: /* floating */
-            if (d->len == LEN_BIGL) PUSH(ffi_type_longdouble, ld, (long double)dval(d->vsel));
+            if (d->len == LEN_BIGL) PUSH(ffi_type_longdouble, ld, ldval(d->vsel));
             else PUSH(ffi_type_double, d, dval(d->vsel));
             break;
         }
